@@ -88,14 +88,14 @@ Definition check (s : sx) : Z :=
                   strs_eqb ittwh (opt_code_list (o_observed_first mo) sanitize_code))
       | _, _, _, _, _, _, _, _, _ => code_decode_error
       end
-  | SL [SZ 5; m; SZ status; fail; reqnil; SL [SZ icount; icode; imeth; iwho; ipanicked; ierr; SZ idur; SZ igauge]] =>
-      match dStr m, dB fail, dB reqnil, dStr icode, dStr imeth, dStr iwho, dB ipanicked, dB ierr with
-      | Some m, Some fail, Some reqnil, Some icode, Some imeth, Some iwho, Some ipanicked, Some ierr =>
+  | SL [SZ 5; m; extra; SZ status; fail; reqnil; SL [SZ icount; icode; imeth; iwho; ipanicked; ierr; SZ idur; SZ igauge]] =>
+      match dStr m, dL dStr extra, dB fail, dB reqnil, dStr icode, dStr imeth, dStr iwho, dB ipanicked, dB ierr with
+      | Some m, Some extra, Some fail, Some reqnil, Some icode, Some imeth, Some iwho, Some ipanicked, Some ierr =>
           if fail then both (negb ipanicked && ierr && Z.eqb icount 0 && Z.eqb idur 0 && Z.eqb igauge 0) true
           else both (negb ipanicked && negb ierr && Z.eqb icount 1 && Z.eqb idur 1 && Z.eqb igauge 0 &&
-                     str_eqb icode (code_spec status) && str_eqb imeth (method_spec m []) && str_eqb iwho [109; 101])
-                    (str_eqb icode (sanitize_code status) && str_eqb imeth (sanitize_method m []))
-      | _, _, _, _, _, _, _, _ => code_decode_error
+                     str_eqb icode (code_spec status) && str_eqb imeth (method_spec m extra) && str_eqb iwho [109; 101])
+                    (str_eqb icode (sanitize_code status) && str_eqb imeth (sanitize_method m extra))
+      | _, _, _, _, _, _, _, _, _ => code_decode_error
       end
   | SL [SZ 6; free; consts; curried; ipanicked] =>
       match dL dStr free, dB ipanicked with
